@@ -14,7 +14,7 @@ Section Prog.
   Variable zero : T.
   Variable grow : nat -> nat -> nat.
   Variable eqb : T -> T -> bool.
-  Variable cmp : T -> T -> Z.
+  Variable cmp : nat -> T -> T -> Z.
   Variable draw : nat -> nat.
   Hypothesis grow_ok : forall c n, n <= grow c n.
 
@@ -273,13 +273,13 @@ Section ProgLaws.
   Variable zero : T.
   Variable grow : nat -> nat -> nat.
   Variable eqb : T -> T -> bool.
-  Variable cmp : T -> T -> Z.
+  Variable cmp : nat -> T -> T -> Z.
   Variable draw : nat -> nat.
   Hypothesis grow_ok : forall c n, n <= grow c n.
   Hypothesis eqb_spec : forall x y, eqb x y = true <-> x = y.
-  Hypothesis cmp_eq : forall x y, (cmp x y = 0)%Z <-> x = y.
-  Hypothesis cmp_anti : forall x y, (cmp x y < 0)%Z <-> (0 < cmp y x)%Z.
-  Hypothesis cmp_trans : forall x y z, (cmp x y < 0)%Z -> (cmp y z < 0)%Z -> (cmp x z < 0)%Z.
+  Hypothesis cmp_eq : forall c x y, (cmp c x y = 0)%Z <-> x = y.
+  Hypothesis cmp_anti : forall c x y, (cmp c x y < 0)%Z <-> (0 < cmp c y x)%Z.
+  Hypothesis cmp_trans : forall c x y z, (cmp c x y < 0)%Z -> (cmp c y z < 0)%Z -> (cmp c x z < 0)%Z.
 
   Notation heap := (heap T).
   Notation vstate := (vstate T).
